@@ -172,9 +172,12 @@ def roles_run(ctx):
 
 CHECKS = {
     "C02": {
-        "lean_modules": ["P3R.Props.C02"],
+        "lean_modules": ["P3R.Props.C02", "P3R.Lemmas.BuilderSound"],
         "theorems": ["P3R.C02.dedup_rewrite_terminates", "P3R.C02.setW_get", "P3R.C02.setW_mono",
-                     "P3R.C02.execAlu_sound"],
+                     "P3R.C02.execAlu_sound",
+                     # builder rule soundness w.r.t. the denotation of Model/SymCompile (proved for C13, same builder model)
+                     "P3R.binv_init", "P3R.defineConst_sound", "P3R.add_sound", "P3R.sub_sound", "P3R.mul_sound",
+                     "P3R.mulAdd_sound"],
         "run": lambda ctx: compile_run(ctx, "C02"),
         "trusted_base": ["executable prime-field instances PF p of the driver (validated against p3-field by the runs)"],
         "assumptions": ["zero divisors: no guarantee is checked when some divisor evaluates to 0 (as the property states)"],
